@@ -112,7 +112,7 @@ M = [
  ("pal-count-no-plus1", ["C13", "C09"], "decode/decode.go", "length, format := 1+int(src[0]&0x3f), src[0]>>6", "length, format := int(src[0]&0x3f), src[0]>>6"),
  ("chunk-length-unchecked", ["C13", "C03"], "decode/decode.go", "if int64(len(src)) != lenSrcWant {", "if int64(len(src)) > lenSrcWant {"),
  ("viewbox-only-skips-later-chunks", "C13", "decode/decode.go", "\tfor ; nMetadataChunks > 0; nMetadataChunks-- {\n", "\tfor ; nMetadataChunks > 0; nMetadataChunks-- {\n\t\tif metadataOnly && m.ViewBox != ivg.DefaultViewBox {\n\t\t\treturn nil\n\t\t}\n"),
- ("pal-nonpremul-kept", ["C13", "C03"], "color.go", "if c.typ != ColorTypeRGBA || !ValidAlphaPremulColor(c.data) {\n\t\treturn color.RGBA{0x00, 0x00, 0x00, 0xff}, false", "if c.typ != ColorTypeRGBA || !ValidAlphaPremulColor(c.data) && c.data.A != 0x10 {\n\t\treturn color.RGBA{0x00, 0x00, 0x00, 0xff}, false"),
+ # (pal-nonpremul-kept dropped: equivalent since the D6 repair sanitises the whole palette after the options)
  ("mid-order-unchecked", ["C13", "C03"], "decode/decode.go", "if int64(mid) <= *prevMID {", "if int64(mid) < *prevMID {"),
  # ---- C14
  ("opts-before-chunks", "C14", "decode/decode.go", "\tprevMID := int64(-1)\n\tfor ; nMetadataChunks > 0; nMetadataChunks-- {", "\tfor _, opt := range opts {\n\t\topt(m)\n\t}\n\topts = nil\n\tprevMID := int64(-1)\n\tfor ; nMetadataChunks > 0; nMetadataChunks-- {"),
@@ -147,7 +147,7 @@ M = [
  ("lin-ma-mb", "C19", "generate/generate.go", "vbx2grad := Aff3{\n\t\tma, mb, -ma*x1 - mb*y1,", "vbx2grad := Aff3{\n\t\tmb, ma, -ma*x1 - mb*y1,"),
  ("circ-sign", "C19", "generate/generate.go", "invR, 0, -cx * invR,", "invR, 0, cx * invR,"),
  ("matrix-order", "C19", "generate/generate.go", "d.SetNReg(uint8(len(transform)-i), false, v)", "d.SetNReg(uint8(1+i), false, v)"),
- ("nsel-not-restored", ["C19", "C07"], "generate/generate.go", "\td.SetCSel(oldCSel)\n\td.SetNSel(oldNSel)", "\td.SetCSel(oldCSel)\n\td.SetNSel(oldNSel + 1)"),
+ ("nsel-not-restored", "C19", "generate/generate.go", "\td.SetCSel(oldCSel)\n\td.SetNSel(oldNSel)", "\td.SetCSel(oldCSel)\n\td.SetNSel(oldNSel + 1)"),
  ("stops-uint8", "C19", "generate/generate.go", "if len(stops) > 64-len(transform) {", "if uint8(len(stops)) > uint8(64-len(transform)) {"),
  ("ren-unmasked-incr", "C19", "render/render.go", "z.cSel = (z.cSel + 1) & 0x3f", "z.cSel++"),
  ("ellip-md-sign", "C19", "generate/generate.go", "md := -ry * invRSSR", "md := +ry * invRSSR"),
